@@ -63,7 +63,7 @@ pub fn run(prop: &str, data: &[u8]) -> Option<(Value, Verdict)> {
         }
         "C15" => {
             let (choices, doc) = dyn_parts(rest)?;
-            const K: [u8; 8] = [0, 1, 3, 4, 5, 7, 8, 9];
+            const K: [u8; 8] = [0, 1, 3, 4, 5, 6, 7, 9];
             let mut rewrites = vec![c15::Rw { kind: K[(h[0] & 7) as usize], site: (h[1] as u16) * 257, arg: (h[2] as u16) * 251 + (h[0] >> 3) as u16 }];
             if h[3] & 0x80 != 0 {
                 rewrites.push(c15::Rw { kind: K[(h[3] & 7) as usize], site: ((h[1] ^ h[3]) as u16) * 257, arg: (h[2] as u16) * 13 + (h[3] >> 3) as u16 });
